@@ -348,13 +348,15 @@ def run(ctx):
                         r5.undecidable("clean", "cannot evaluate the cleaning filter as a set", common.fn_line(prog, cleaner))
                     else:
                         miss = sorted(c for c in REGEX_META | {"‌"} if c not in removed)
-                        lost = sorted(c for c in removed if 0x0980 <= ord(c) <= 0x09FF)
+                        # what may be ignored is punctuation and the non-joiner of traditional joining; letters, signs, digits and the joiner U+200D
+                        # (র‍্য is spelled with it) belong to the word
+                        lost = sorted(c for c in removed if 0x0980 <= ord(c) <= 0x09FF or c == "\u200d" or (c.isascii() and c.isalnum()))
                         if miss:
                             r5.violation("clean", "the cleaning filter keeps %s — a typed %s reaches the pattern unescaped (regex meta) or defeats the prefix match (joiner)"
                                          % (" ".join(repr(m) for m in miss), "character"), common.fn_line(prog, cleaner))
                         elif lost:
-                            r5.violation("clean", "the cleaning filter removes %s from the typed word — letters / signs of the Bengali block belong to the word, without them "
-                                         "the prefix match runs for a different word" % " ".join("U+%04X" % ord(c) for c in lost), common.fn_line(prog, cleaner))
+                            r5.violation("clean", "the cleaning filter removes %s from the typed word — letters, signs, digits and the joiner belong to the word, without them "
+                                         "the prefix match runs for a different word (and its completions do not begin with what was typed)" % " ".join("U+%04X" % ord(c) for c in lost), common.fn_line(prog, cleaner))
                         else:
                             r5.ok("clean", "removes %d characters incl. all regex meta-characters and U+200C; keeps Bengali letters" % len(removed))
     r5.floor(3, "pattern, class, clean")
